@@ -678,8 +678,8 @@ pub fn run(ctx: &Ctx) {
     ctx.rule("text cases: 0-45 words (ligature/kern sequences, space-factor punctuation, capitals before periods, explicit hyphens, long hyphenatable words, letterless tokens) set in cmr10 through TextPreprocessorImpl with \\spaceskip/\\xspaceskip zero or not and three space-factor tables, then broken with 1-3 line widths, 0-3 indents, club/widow/broken/interline penalties, left/right/parfill skips, tolerances, emergency stretch, looseness, hyphenation on or off; list cases: hand-built lists of words, glue, penalties, explicit and implicit kerns and discretionaries with pre/post/replace parts, biased to consecutive discardables. Oracle: the list spells the words; every inter-word glue equals TeX's space-factor machine; the list left by break_line is the prepared (hyphenated) list ending in \\penalty10000 \\parfillskip; with the breakpoints recomputed by break_line_all_attempts on a clone, the line boxes and penalties must equal a transcription of TeX's post_line_break (877-890 incl. the pruning of 879) item for item, with the requested width and shift; no later line begins with a discardable. non-trivial = >=3 lines and (a break at a discretionary, a discardable run >=2 at a break, or a space factor that changes a glue); distinct by case");
     ctx.assume("cmr10 from the repository's corpus, registered as boxworks-bin does; baseline-skip glue between lines is ignored (not in the property)");
     ctx.assume("breakpoint choice itself is decided by C04, glue setting of the line boxes by C15");
-    let n = ctx.tier.pick(6_000u64, 150_000u64);
+    let n = ctx.tier.pick(40_000u64, 600_000u64);
     run_generated(ctx, "text_paragraphs", n, text_case_strategy, |c: &TextCase, case| text_oracle(ctx, c, case));
-    let n = ctx.tier.pick(12_000u64, 300_000u64);
+    let n = ctx.tier.pick(80_000u64, 1_200_000u64);
     run_generated(ctx, "hand_built_lists", n, list_case_strategy, |c: &ListCase, case| list_oracle(ctx, c, case));
 }
